@@ -152,7 +152,9 @@ def _other_model_same_object(rep, case, fc):
     else:
         rep.count("other_model_inner_evaluations_not_observed")
     yj = j[0] / (j[0] + j[1])
-    if 0 <= yj <= 1:
+    # y*-free form: only when the inner evaluations were not observed, and only where the composition map has no pole
+    # nearby (J1 + J2 without cancellation)
+    if not taps and 0 <= yj <= 1 and (abs(j[0]) + abs(j[1])) < 10 * abs(j[0] + j[1]):
         L = lipschitz(fc2, yj, p1, p2, fc.precision)
         if L < 0.9:
             try:
@@ -210,7 +212,9 @@ def _judge(rep, case, fc, j, taps, n2, k, Permeance):
     if fc.mode not in ("V",):
         anchor = ystar if ystar is not None else yj
         L = lipschitz(fc, anchor, p1, p2, fc.precision)
-        if L < 0.9:
+        if (abs(j[0]) + abs(j[1])) >= 10 * abs(j[0] + j[1]):
+            rep.count("composition_map_near_pole_not_judged")  # J1 + J2 nearly cancels: J1/(J1+J2) is ill-conditioned
+        elif L < 0.9:
             rep.count("contractive_cases")
             if ystar is not None:
                 rep.check("|J1/(J1+J2) - y*| < precision (contractive)", abs(yj - ystar), fc.precision, case,
